@@ -352,7 +352,7 @@ class ColumnDefinition:
         if column_text[0] == "`":
 
             # The column name is surrounded by backticks
-            match_object = match("^`(.*?)`", column_text)
+            match_object = match("^`((?:[^`]|``)*)`", column_text)
 
             if not match_object:
                 log_message = "No backtick match found for sql column definition: {} with text: {}."
@@ -361,9 +361,7 @@ class ColumnDefinition:
                 raise MasterSchemaRowParsingError(log_message)
 
             # Set the column name and strip the backticks
-            column_name = column_text[match_object.start() : match_object.end()].strip(
-                "`"
-            )
+            column_name = match_object.group(1).replace("``", "`")
 
             # Set the remaining column text
             remaining_column_text = column_text[match_object.end() :]
@@ -396,7 +394,7 @@ class ColumnDefinition:
         elif column_text[0] == "'":
 
             # The column name is surrounded by single quotes
-            match_object = match("^'(.*?)'", column_text)
+            match_object = match("^'((?:[^']|'')*)'", column_text)
 
             if not match_object:
                 log_message = "No single quote match found for sql column definition: {} with text: {}."
@@ -405,9 +403,7 @@ class ColumnDefinition:
                 raise MasterSchemaRowParsingError(log_message)
 
             # Set the column name and strip the single quotes
-            column_name = column_text[match_object.start() : match_object.end()].strip(
-                "'"
-            )
+            column_name = match_object.group(1).replace("''", "'")
 
             # Set the remaining column text
             remaining_column_text = column_text[match_object.end() :]
@@ -418,7 +414,7 @@ class ColumnDefinition:
         elif column_text[0] == '"':
 
             # The column name is surrounded by double quotes
-            match_object = match('^"(.*?)"', column_text)
+            match_object = match('^"((?:[^"]|"")*)"', column_text)
 
             if not match_object:
                 log_message = "No double quote match found for sql column definition: {} with text: {}."
@@ -427,9 +423,7 @@ class ColumnDefinition:
                 raise MasterSchemaRowParsingError(log_message)
 
             # Set the column name and strip the double quotes
-            column_name = column_text[match_object.start() : match_object.end()].strip(
-                '"'
-            )
+            column_name = match_object.group(1).replace('""', '"')
 
             # Set the remaining column text
             remaining_column_text = column_text[match_object.end() :]
